@@ -113,7 +113,7 @@ def run(ctx):
                 cfg["mthr"] = rng.choice([0.0, 0.25, 1 / 3, 0.5, 2 / 3, 1.0]) if cfg["mmetric"] != "ASSD" else rng.choice([0.0, 0.5, 1.0])
             one_case(ctx, cfg, maps[i], maps[j], "1x4")
     ctx.layers.append({"layer": "all pairs of maps over {0,1,2} on 1x4 x input types x sampled configuration", "pairs": len(sel), "of": len(pairs), "exhaustive": full})
-    for _ in range(ctx.scale(150, 3000)):
+    for _ in range(ctx.scale(400, 4000)):
         it = rng.choice(["matched", "unmatched", "unmatched", "semantic"])
         p, r = impl.rand_pair(rng, max_side=7, max_inst=4)
         if it == "semantic":
